@@ -544,4 +544,7 @@ def run(chk):
                      "PSK: 'the Finished record opens and verifies' is the evidence of key knowledge; the symbolic link to "
                      "the PSK is Hs/C04TranscriptSound.psk_binds (premises: PRF and pre-master-secret construction injective)",
                      "DTLS 1.3 rogue flights are produced by a test-only hook injected with go test -overlay into scratch "
-                     "copies of internal/flight/flight13/flight{4,5}handler.go (/repo untouched)"])
+                     "copies of internal/flight/flight13/flight{4,5}handler.go (/repo untouched)",
+                     "scenario psk_only_13 (F57, repaired in /repo by 85b75b7: a PSK-only configuration does not offer "
+                     "DTLS 1.3): the process's system roots are the lab CA (SSL_CERT_FILE set by this driver); on the repaired "
+                     "tree the configuration is refused when the connection is created, reported as a local refusal"])
